@@ -22,12 +22,14 @@ package PKGNAME
 import (
 	"fmt"
 	"runtime"
+	"runtime/debug"
 	"sort"
 	"strconv"
 	"strings"
 	"sync"
 	"sync/atomic"
 	"testing"
+	"testing/synctest"
 	"time"
 
 	"github.com/centrifugal/centrifuge/internal/queue"
@@ -540,6 +542,25 @@ func vfC13Run(cfgs [][]ChannelBatchConfig, steps []vfC13Step, m *vfC13Model) str
 	return ""
 }
 
+// vfC13Bubble is vfBubble with the two GC cycles made optional: they are only needed when a channelWriter armed a
+// (pooled) delay timer inside the bubble, and forced GCs dominate the cost of a case.
+func vfC13Bubble(t *testing.T, gc func() bool, f func() string) string {
+	var out string
+	synctest.Test(t, func(st *testing.T) {
+		defer func() {
+			if r := recover(); r != nil {
+				out = fmt.Sprintf("PANIC: %v\n%s", r, debug.Stack())
+			}
+		}()
+		out = f()
+	})
+	if gc() {
+		runtime.GC()
+		runtime.GC()
+	}
+	return out
+}
+
 func TestVF_C13(t *testing.T) {
 	// Two Ps are enough for the only race of interest here (harness goroutine vs. a waitTimer goroutine) and make
 	// the many cross-thread goroutine hand-offs of a bubble several times cheaper than with all cores.
@@ -611,7 +632,13 @@ func TestVF_C13(t *testing.T) {
 		c.Describe(sb.String())
 
 		m := &vfC13Model{items: map[int]vfC13Item{}, cfg: map[string]ChannelBatchConfig{}, frontier: map[string][]vfC13State{}}
-		msg := vfBubble(t, func() string { return vfC13Run(cfgs, steps, m) })
+		usesTimer := false
+		for _, cl := range cfgs {
+			for _, cf := range cl {
+				usesTimer = usesTimer || cf.MaxDelay > 0
+			}
+		}
+		msg := vfC13Bubble(t, func() bool { return usesTimer }, func() string { return vfC13Run(cfgs, steps, m) })
 
 		c.Label("part=sequential")
 		if m.sizeFlushArmed > 0 {
@@ -699,7 +726,11 @@ func TestVF_C13_Concurrent(t *testing.T) {
 			c.Label("concurrent_del/close(false)")
 		}
 
-		msg := vfBubble(t, func() string {
+		usesTimer := false
+		for _, cf := range cfg {
+			usesTimer = usesTimer || cf.MaxDelay > 0
+		}
+		msg := vfC13Bubble(t, func() bool { return usesTimer }, func() string {
 			var seq atomic.Int64
 			rec := &vfC13Rec{start: time.Now(), seq: &seq}
 			pcw := newPerChannelWriter(rec.flushFn)
